@@ -193,6 +193,23 @@ let htmlws_case opts toks =
   let o = { HtmlWs.keepws = Stdlib.String.get opts 0 = '1'; keep_end_tags = Stdlib.String.get opts 1 = '1'; keep_doc_tags = Stdlib.String.get opts 2 = '1' } in
   hexe (HtmlWs.html_minify o ts)
 
+let contains_sub (s : string) (sub : string) =
+  let n = Stdlib.String.length s and m = Stdlib.String.length sub in
+  let rec go i = i + m <= n && (Stdlib.String.sub s i m = sub || go (i + 1)) in go 0
+let htmlreg_case opts bits toks =
+  let ts = htmlws_toks toks in
+  let b = int_of_string bits in
+  let o = { HtmlWs.keepws = Stdlib.String.get opts 0 = '1'; keep_end_tags = Stdlib.String.get opts 1 = '1'; keep_doc_tags = Stdlib.String.get opts 2 = '1' } in
+  let stub tag = fun payload ->
+    let p = string_of_bytes payload in
+    if contains_sub p "FAIL" then None else Some (bytes_of_string (tag ^ "(" ^ p ^ ")")) in
+  let names = [ (HtmlEmbed.mt_js, "J"); (HtmlEmbed.mt_css, "C"); (HtmlEmbed.mt_html, "H"); (HtmlEmbed.mt_svg, "V"); (HtmlEmbed.mt_math, "M") ] in
+  let look mt =
+    let rec go i = function
+      | [] -> None
+      | (n, tag) :: r -> if n = mt then (if b land (1 lsl i) <> 0 then Some (stub tag) else None) else go (i + 1) r in
+    go 0 names in
+  match HtmlEmbed.html_minify_reg look o ts with Some out -> hexe out | None -> "ERR"
 
 (* ---- Js rename ---- *)
 let js_keywords : BinNums.coq_Z list list ref = ref []
@@ -269,6 +286,13 @@ let register (reg : string -> (string list -> string) -> unit) =
   reg "xml" (function [k; t] -> xml_case k t | [k] -> xml_case k "" | _ -> "BADARGS");
   reg "csshex" (function [v] -> hexe (CssColor.hex_color_minify Tables_gen.css_shorten_color_hex (hexd v)) | _ -> "BADARGS");
   reg "htmlws" (function [o; t] -> htmlws_case o t | [o] -> htmlws_case o "" | _ -> "BADARGS");
+  reg "htmltype" (function [tag; ty; cands] ->
+      let cl = split '\n' (string_of_bytes (hexd cands)) in
+      (match HtmlSelect.html_select (bytes_of_string tag) (hexd ty) with
+       | Some mt -> let m = string_of_bytes mt in if Stdlib.List.mem m cl then m else "-"
+       | None -> "-")
+    | _ -> "BADARGS");
+  reg "htmlreg" (function [o; bits; t] -> htmlreg_case o bits t | [o; bits] -> htmlreg_case o bits "" | _ -> "BADARGS");
   reg "htmlwf" (function [_; t] -> if HtmlWsWf.wf_tokens_b (htmlws_toks t) then "1" else "0" | [_] -> "1" | _ -> "BADARGS");
   reg "htmlattr" (function [v; q; m] -> hexe (HtmlAttr.html_escape_attr_val (hexd v) (z_of_int (int_of_string q)) (m = "1")) | _ -> "BADARGS");
   reg "xml_escattr" (function [v] -> hexe (XmlModel.escape_attr_val (hexd v)) | _ -> "BADARGS");
